@@ -521,4 +521,29 @@ example : U claimWorld 1 ≤ 20 ∧ (∀ op ∈ mixedOps, isEpochEnd op = false)
   simp only [mixedOps, List.mem_cons, List.mem_nil_iff, or_false] at hop
   rcases hop with rfl | rfl | rfl | rfl | rfl | rfl | rfl | rfl | rfl | rfl | rfl | rfl <;> rfl
 
+/- **gauge_never_overpaid** (full statement — FALSE on the current code, two root causes):
+     along every history an endorsement gauge's DistributedCoins stays ≤ its Coins.
+   (a) F7 above (current power against the snapshot); (b) a FINISHED gauge: x/incentives updates only
+   ACTIVE gauges at the epoch end, so a finished endorsement gauge keeps its last EpochRewards, and
+   `Claim` / `EstimateClaim` / `DistributeEndorsementRewards` look neither at the gauge's state nor at
+   Coins − DistributedCoins.  `claims_le_allotment_mixed_partial` still holds for such a gauge — but the
+   `R` it speaks of is a stale field, not an allotment the gauge was given for this epoch. -/
+
+/-- the 1-epoch variant of gauge 3 -/
+def g3n : Gauge := { g3 with perpetual := false }
+
+def s0n : State := { s0 with gauges := [g1, g2, g3n, g4] }
+
+/-- a0 endorses r0 alone; the epoch ends (gauge 3 gets all its 100 as EpochRewards and is finished), a0
+    claims 100; the next epoch ends (the finished gauge is not touched, the blacklist is cleared), a0
+    claims 100 again: 200 distributed out of 100 — with NO staking message at all after the vote -/
+def finishedOps : List Op :=
+  [stake 0 0 10, .vote 0 [(1, full)], .epochEnd true, .claim 0 3, .epochEnd true, .claim 0 3]
+
+theorem gauge_never_overpaid_counterexample :
+    ∃ s ops gid g, NoRaiseRun ((run s (ops.take 3))) (ops.drop 3) ∧ (run s ops).gauge? gid = some g ∧
+      g.status = .finished ∧ g.kind = .endorsement 0 ∧ g.coins < g.distributed :=
+  ⟨s0n, finishedOps, 3, { g3n with distributed := 200, epochRewards := some 100, filled := 1, status := .finished },
+    ⟨trivial, trivial, trivial, trivial⟩, by decide, rfl, rfl, by decide⟩
+
 end DymVerif.Props.C16
